@@ -92,6 +92,7 @@ def main():
     ap.add_argument("--all-checks", action="store_true")
     ap.add_argument("--extra-checks", default="")
     ap.add_argument("--by-meta", action="store_true")
+    ap.add_argument("--related", action="store_true", help="also run the checks of the properties anchored in the files the patch touches")
     a = ap.parse_args()
     cands = []
     if a.kept:
@@ -130,6 +131,18 @@ def main():
     rows = []
     for cdir, pid, name in cands:
         checks = ALL if a.all_checks else [pid] + [c for c in a.extra_checks.split(",") if c]
+        if a.related:
+            rel = {"conditions.py": ["C01", "C02", "C09", "C11", "C14", "C17"], "datapath.py": ["C03", "C04", "C10", "C12", "C16"],
+                   "data.py": ["C01", "C03", "C05", "C08"], "rules.py": ["C05", "C07", "C13", "C15", "C16"],
+                   "schema.py": ["C06", "C13", "C18", "C20"], "callables.py": ["C01", "C07"], "casting.py": ["C15", "C13", "C10"],
+                   "utils.py": ["C02"]}
+            try:
+                txt = open(os.path.join(cdir, "patch.diff")).read()
+            except Exception:
+                txt = ""
+            for f, cs in rel.items():
+                if "valida/" + f in txt:
+                    checks += [c for c in cs if c not in checks]
         r = evaluate(cdir, pid, a.tier, checks)
         r["name"] = name
         rows.append(r)
